@@ -176,7 +176,11 @@ impl<const BIT: bool> Inventories<BIT> {
             let v: i64 = (-(overflow_positions.len() as i64)) - 1;
             block_inventory.push(v);
             overflow_positions.extend(curr_positions.iter());
-            subblock_inventory.extend(std::iter::repeat(u16::MAX).take(curr_positions.len()));
+            // a block always owns one subblock entry per SUBBLOCK_SIZE positions
+            subblock_inventory.extend(
+                std::iter::repeat(u16::MAX)
+                    .take((curr_positions.len() + SUBBLOCK_SIZE - 1) / SUBBLOCK_SIZE),
+            );
         }
     }
 }
